@@ -144,3 +144,122 @@ def kwarg(call: ast.Call, name: str, pos: int | None = None) -> ast.expr | None:
     if pos is not None and len(call.args) > pos and not any(isinstance(a, ast.Starred) for a in call.args[: pos + 1]):
         return call.args[pos]
     return None
+
+
+# ---------------------------------------------------------------------------------------------- reaching definitions
+def name_events(cfg: CFG, name: str) -> dict[Node, tuple[str, ast.AST]]:
+    """CFG nodes that define or mutate local `name`: kind in assign|for|with|sub|aug|del|call-mutate."""
+    out: dict[Node, tuple[str, ast.AST]] = {}
+    for n in cfg.live:
+        a = n.ast
+        if a is None:
+            continue
+        if n.kind == "for":
+            if any(isinstance(x, ast.Name) and x.id == name for x in ast.walk(n.stmt.target)):  # type: ignore[union-attr]
+                out[n] = ("for", n.stmt)  # type: ignore[arg-type]
+            continue
+        if n.kind == "with":
+            for item in n.stmt.items:  # type: ignore[union-attr]
+                if item.context_expr is a and item.optional_vars is not None and any(isinstance(x, ast.Name) and x.id == name for x in ast.walk(item.optional_vars)):
+                    out[n] = ("with", a)
+            continue
+        if isinstance(a, ast.Assign):
+            for t in a.targets:
+                for el in ([t] if not isinstance(t, (ast.Tuple, ast.List)) else t.elts):
+                    if isinstance(el, ast.Starred):
+                        el = el.value
+                    if isinstance(el, ast.Name) and el.id == name:
+                        out[n] = ("assign", a)
+                    elif isinstance(el, ast.Subscript) and _base_name(el) == name:
+                        out[n] = ("sub", a)
+        elif isinstance(a, ast.AnnAssign):
+            if isinstance(a.target, ast.Name) and a.target.id == name and a.value is not None:
+                out[n] = ("assign", a)
+            elif isinstance(a.target, ast.Subscript) and _base_name(a.target) == name:
+                out[n] = ("sub", a)
+        elif isinstance(a, ast.AugAssign):
+            if isinstance(a.target, ast.Name) and a.target.id == name:
+                out[n] = ("aug", a)
+            elif isinstance(a.target, ast.Subscript) and _base_name(a.target) == name:
+                out[n] = ("augsub", a)
+        elif isinstance(a, ast.Delete):
+            if any(_base_name(t) == name for t in a.targets):
+                out[n] = ("del", a)
+    return out
+
+
+def _base_name(e: ast.AST) -> str | None:
+    while isinstance(e, (ast.Subscript, ast.Attribute)):
+        e = e.value
+    return e.id if isinstance(e, ast.Name) else None
+
+
+def reaching_events(cfg: CFG, name: str, at: Node) -> list[tuple[Node, str, ast.AST]]:
+    """Definition / mutation events of `name` that may reach node `at` (assignments kill earlier events)."""
+    events = name_events(cfg, name)
+    killers = {n for n, (k, _) in events.items() if k in ("assign", "for", "with")}
+    out = []
+    for n, (kind, a) in events.items():
+        if n is at:
+            continue
+        # does n reach `at` without passing another killing definition?
+        p = cfg.path_avoiding(n, {at}, killers - {n} if kind in ("assign", "for", "with") else killers)
+        if p is not None:
+            out.append((n, kind, a))
+    # parameter / undefined on some path: a path entry->at avoiding all killers
+    if cfg.path_avoiding(cfg.entry, {at}, killers) is not None:
+        out.append((cfg.entry, "entry", cfg.func))
+    return out
+
+
+def dep_leaves(prog: Program, f: FuncInfo, e: ast.expr, _seen: set[str] | None = None) -> set[str]:
+    """Flow-insensitive data-dependence leaves of an expression inside f: `param:x`, `self.a.b`, `call:name`."""
+    seen = _seen if _seen is not None else set()
+    out: set[str] = set()
+    params = set(f.params) | set(f.kwonly)
+    for n in ast.walk(e):
+        if isinstance(n, ast.Attribute):
+            d = dotted(n)
+            if d and f.self_name and d.startswith(f.self_name + "."):
+                par = parent(n)
+                if not (isinstance(par, ast.Attribute) and dotted(par)):
+                    out.add(d)
+        elif isinstance(n, ast.Name) and isinstance(n.ctx, ast.Load):
+            if n.id == f.self_name:
+                continue
+            if n.id in params:
+                out.add(f"param:{n.id}")
+                # a parameter may also be rebound locally
+            if n.id in seen:
+                continue
+            defs = _local_defs(f, n.id)
+            if defs:
+                seen.add(n.id)
+                for d_ in defs:
+                    out |= dep_leaves(prog, f, d_, seen)
+        elif isinstance(n, ast.Call):
+            d = dotted(n.func)
+            if d:
+                out.add(f"call:{d}")
+    return out
+
+
+def _local_defs(f: FuncInfo, name: str) -> list[ast.expr]:
+    out: list[ast.expr] = []
+    for n in walk_scope(f.node):
+        if isinstance(n, ast.Assign):
+            for t in n.targets:
+                if any(isinstance(x, ast.Name) and x.id == name for x in ast.walk(t)):
+                    out.append(n.value)
+        elif isinstance(n, ast.AnnAssign) and n.value is not None and any(isinstance(x, ast.Name) and x.id == name for x in ast.walk(n.target)):
+            out.append(n.value)
+        elif isinstance(n, ast.AugAssign) and any(isinstance(x, ast.Name) and x.id == name for x in ast.walk(n.target)):
+            out.append(n.value)
+        elif isinstance(n, ast.For) and any(isinstance(x, ast.Name) and x.id == name for x in ast.walk(n.target)):
+            out.append(n.iter)
+        elif isinstance(n, ast.NamedExpr) and n.target.id == name:
+            out.append(n.value)
+    for n in ast.walk(f.node):
+        if isinstance(n, ast.comprehension) and any(isinstance(x, ast.Name) and x.id == name for x in ast.walk(n.target)):
+            out.append(n.iter)
+    return out
